@@ -599,6 +599,11 @@ class SymExec:
         s2 = self.st
         self.cond_depth -= 1
         self.st = self.join_states([s1, s2])
+        if s1 is not None and s2 is not None:
+            nphi = sum(1 for k in self.st if isinstance(self.st[k], Poly) and isinstance(s1.get(k), Poly) and isinstance(s2.get(k), Poly)
+                       and s1.get(k) != s2.get(k))
+            if nphi >= 2:
+                self.log("multijoin", node=e, n=nphi)
         if s1 is None:
             return v2
         if s2 is None:
@@ -758,18 +763,76 @@ class SymExec:
                     self.havoc_key(r, why)
 
     def run_loop_body(self, node, body_eval, loop_id):
-        """Generic single-pass loop: havoc assigned roots at head, run body once,
-        return join of break states."""
+        """Single-pass loop interpretation from a generalised head state.
+
+        The head state starts as the pre-loop state; every key whose value at the latch
+        differs from the head is havocked and the body is re-run (widening after one
+        iteration), until the head is a post-fixpoint. Keys written only on paths that
+        leave the loop therefore keep their pre-loop value at the head. Rule hooks may
+        install their own head (main loops)."""
         roots = self.assigned_roots(node)
-        if self.h:
-            keep = self.h.loop_head(self, node, roots)
-        else:
-            keep = None
-        if keep is None:
-            self.havoc_roots(roots, "loop")
+        custom = self.h.loop_head(self, node, roots) if self.h else None
+        if custom is not None:
+            n_ex = len(self.exits)
+            body_eval()
+            latch, breaks = self._split_exits(n_ex, loop_id)
+            if self.h:
+                self.h.loop_latch(self, node, latch, breaks)
+            return latch, breaks
+        pre = dict(self.st)
+        hav = {}
+        for _round in range(12):
+            snap = self.h.snapshot() if self.h else None
+            n_ex = len(self.exits)
+            n_tr = len(self.trace)
+            self.st = dict(pre)
+            for k, v in hav.items():
+                self.st[k] = v
+            head = dict(self.st)
+            self._last_head = head
+            body_eval()
+            latch, breaks = self._split_exits(n_ex, loop_id)
+            L = self.join_states(latch)
+            new = []
+            if L is not None:
+                for k in set(L) | set(head):
+                    if k in hav:
+                        continue
+                    a, b = head.get(k), L.get(k)
+                    if a is None and b is not None:
+                        # first defined inside the loop: only matters if read before written; skip
+                        continue
+                    if b is None:
+                        continue
+                    if type(a) is not type(b) or a != b:
+                        new.append(k)
+            if not new:
+                if self.h:
+                    self.h.loop_latch(self, node, latch, breaks)
+                return latch, breaks
+            # roll back the trial run and widen
+            del self.trace[n_tr:]
+            if self.h and snap is not None:
+                self.h.restore(snap)
+            for k in new:
+                old = pre.get(k)
+                nm = self.names.get(k, k)
+                if isinstance(old, Buf):
+                    f = self.fresh("%s~loop" % nm)
+                    hav[k] = Buf(f.single_atom(), {}, old.len, old.unit, None)
+                else:
+                    hav[k] = self.fresh("%s~loop" % nm)
+        # did not stabilise: fall back to havocking every syntactic root
+        self.st = dict(pre)
+        self.havoc_roots(roots, "loop")
         n_ex = len(self.exits)
-        self.cond_depth += 0
         body_eval()
+        latch, breaks = self._split_exits(n_ex, loop_id)
+        if self.h:
+            self.h.loop_latch(self, node, latch, breaks)
+        return latch, breaks
+
+    def _split_exits(self, n_ex, loop_id):
         latch = [self.st] if self.st is not None else []
         breaks = []
         rest = []
@@ -782,8 +845,6 @@ class SymExec:
             else:
                 rest.append(ex)
         self.exits[n_ex:] = rest
-        if self.h:
-            self.h.loop_latch(self, node, latch, breaks)
         return latch, breaks
 
     def e_Loop(self, e):
@@ -807,17 +868,16 @@ class SymExec:
                     return self.for_unrolled(e, a, b)
             if clo == 0 and not incl and self.uses_index(e["body"], pat["id"]):
                 return self.for_component(e, hi)
-        # generic loop
+        # generic loop (zero or more iterations)
         self.eval_iter_side_effects(e["iter"])
+
         def body():
             self.bind_pat(pat, self.fresh("it"))
             self.eval(e["body"])
-        base = dict(self.st)
         latch, breaks = self.run_loop_body(e, body, lid)
-        # zero or more iterations: state after = join(head-havocked states)
+        # exit happens at a head visit: the generalised head is covered by join(pre, latch)
         outs = list(latch) + list(breaks)
-        # conservatively: the havocked head state itself (zero further iterations)
-        self.st = self.join_states(outs + [self.head_state_after_havoc(base, e)])
+        self.st = self.join_states(outs + [self._last_head]) if hasattr(self, "_last_head") and self._last_head is not None else self.join_states(outs)
         return Poly.atom("unit")
 
     def head_state_after_havoc(self, base, node):
@@ -1119,6 +1179,12 @@ def mentions(e, var_id):
 
 class Hooks:
     """Default (no-op) rule hooks."""
+
+    def snapshot(self):
+        return None
+
+    def restore(self, snap):
+        return None
 
     def select_if(self, sx, node, cond):
         return None
